@@ -355,7 +355,8 @@ def c16a(prog, rep):
     rep.floor(R, "writer-handed-a-File sites", counts.get("writer handed a File", 0), 1)
     # the generic writer: write_all only inside FileFormatter::write (floor 2)
     wa = [c for c in prog.who_calls("std::io::Write::write_all") if c.body.crate.startswith("pasfmt")]
-    rep.check(all(c.body.npath == FF + "write" for c in wa), R, "write_all-confined",
+    wa_helpers = _layout.helper_closure(prog, sorted({c.body.npath for c in wa}), [FF + "write"])      # `write_bom(..)` called only from write is part of it
+    rep.check(all(c.body.npath == FF + "write" or c.body.npath in wa_helpers for c in wa), R, "write_all-confined",
               "Write::write_all is called outside FileFormatter::write: %s" % sorted({short(c.body.npath) for c in wa}))
     rep.floor(R, "write_all sites in FileFormatter::write", len(wa), 2)
     # stdout / check: OpenOptions::new() untouched; closures never touch the File parameter
@@ -565,7 +566,8 @@ def _pathwise_length(prog, rep, R, b, was):
     the counter-shape rules below then apply)."""
     from table import split_call
     try:
-        tb = Table(prog, b)
+        # (inline=1 switches the models of `?` on: a helper that returns Ok(n) / Err(e) is followed through the caller's `?`)
+        tb = Table(prog, b, inline=1, opaque=("encode",))
     except TooComplex:
         return False
 
@@ -829,32 +831,49 @@ def c16e(prog, rep):
 
 
 def c16f(prog, rep):
+    """C16.f — both writers hand `write` the encoding and the BOM the file was decoded with; the only exception is stdout being a terminal
+    (UTF-8, no BOM), selected by is_terminal() alone.  Read off the decision table of write_file / write_stdout with their helpers
+    expanded (`write` itself kept as an atom): per path, the arguments of the one call of write."""
     R = "C16.f"
-    wf = prog.body(FF + "write_file")
-    ws = prog.body(FF + "write_stdout")
-    if not rep.check(wf is not None and ws is not None, R, "anchor:write_file/write_stdout", "write_file / write_stdout not found"):
-        return
-    for b, nm, dparam in ((wf, "write_file", 2), (ws, "write_stdout", 1)):
-        cs = b.calls_to(FF + "write")
-        if not rep.check(len(cs) == 1, R, nm + ":calls-write", "%s must call write exactly once" % nm):
+    for nm, dparam in (("write_file", 2), ("write_stdout", 1)):
+        b = prog.body(FF + nm)
+        if not rep.check(b is not None, R, "anchor:" + nm, "%s not found" % nm):
             continue
-        og = origins(b)
-        enc = og.of_operand(cs[0].args[1])
-        bom = og.of_operand(cs[0].args[2])
-        g_enc = any(x[0] == "param" and x[1] == dparam and x[2].endswith("encoding") for x in enc)
-        g_bom = any(x[0] == "param" and x[1] == dparam and x[2].endswith("bom") for x in bom)
-        extra_enc = {x for x in enc if not (x[0] == "param" and x[1] == dparam)}
-        extra_bom = {x for x in bom if not (x[0] == "param" and x[1] == dparam)}
-        if nm == "write_file":
-            ok = g_enc and g_bom and not extra_enc and not extra_bom
-        else:
-            # terminal arm: (UTF_8, None)
-            ok = g_enc and g_bom and all(x[0] in ("agg",) or (x[0] == "const" and "UTF_8" in str(x[2])) for x in extra_enc | extra_bom)
-        rep.check(ok, R, nm + ":encoding+bom-from-decoded", "%s does not pass the decoded file's encoding and BOM to write (encoding origins %s, bom origins %s)"
-                  % (nm, sorted(map(str, enc)), sorted(map(str, bom))), where=cs[0].where(), instance={"fn": nm, "encoding": "decoded.encoding", "bom": "decoded.bom"})
-    # the terminal override is selected only by is_terminal()
-    sw = [c for c in ws.calls() if (c.callee or "").endswith("IsTerminal::is_terminal")]
-    rep.check(len(sw) == 1, R, "write_stdout:terminal-test", "write_stdout no longer tests is_terminal exactly once")
+        try:
+            tb = Table(prog, b, inline=1, opaque=("write",))
+        except TooComplex as e:
+            rep.fail(R, nm + ":table", "%s is not a loop-free decision any more: %s" % (nm, e))
+            continue
+        bad, n, terminal_rows = [], 0, 0
+        for (cons, res), calls in zip(tb.rows, tb.calls):
+            ws = [a2 for n2, a2 in calls if n2 == FF + "write"]
+            if not ws:
+                if render(res).startswith("Ok"):
+                    bad.append("a successful path of %s does not call write" % nm)
+                continue
+            if len(ws) != 1:
+                bad.append("%s calls write %d times on one path" % (nm, len(ws)))
+                continue
+            n += 1
+            enc, bom, data = ws[0][1], ws[0][2], ws[0][3]
+            term = [c for c in cons if c[0] == "cond" and str(c[1]).startswith("is_terminal(")]
+            is_term = any(c[2] != 0 for c in term)
+            other = [str(c[1])[:50] for c in cons if c[0] == "cond" and not str(c[1]).startswith("is_terminal(") and not str(c[1]).startswith("le(")]      # (`le(..)`: log-level tests)
+            if nm == "write_stdout" and is_term and not other:
+                terminal_rows += 1
+                if not (enc == "static:encoding_rs::UTF_8" and bom == "None"):
+                    bad.append("for a terminal write_stdout passes (%s, %s) instead of (UTF-8, no BOM)" % (enc[:40], bom[:30]))
+            else:
+                if other:
+                    bad.append("%s chooses encoding / BOM by %s" % (nm, other[:2]))
+                if not (enc == "arg%d.encoding" % dparam and bom == "arg%d.bom" % dparam):
+                    bad.append("%s passes (%s, %s) to write instead of the decoded file's encoding and BOM" % (nm, enc[:40], bom[:30]))
+            if data != "arg%d" % (dparam + 1):
+                bad.append("%s does not write the formatted text it was given (%s)" % (nm, data[:40]))
+        rep.check(not bad and n >= 1, R, nm + ":encoding+bom-from-decoded", "%s does not pass the decoded file's encoding and BOM to write: %s" % (nm, bad[:2] or "no call of write"),
+                  where="%s:%d" % (b.file, b.line), instance={"fn": nm, "paths_with_write": n, "encoding": "decoded.encoding", "bom": "decoded.bom", "terminal_paths": terminal_rows})
+        if nm == "write_stdout":
+            rep.check(terminal_rows >= 1, R, "write_stdout:terminal-test", "write_stdout no longer has a path selected by is_terminal() on which UTF-8 without BOM is written")
 
 
 # =========================================================================== C17
@@ -984,21 +1003,35 @@ def c17b(prog, rep):
 
 def c17c(prog, rep):
     R = "C17.c"
-    w = prog.body(FF + "write")
+    # write(): on every successful path the buffers handed to the stream are [the BOM, iff one was given] followed by encode(encoding, data)
+    # — read off the paths of write() with its single-use helpers spliced in (`write_bom(..)?`) and `encode` kept as an atom
+    w = prog.inlined(FF + "write", keep=ORCH_KEEP) or prog.body(FF + "write")
     if rep.check(w is not None, R, "anchor:write", "write not found"):
-        was = w.calls_to("std::io::Write::write_all")
-        descr = [canon(w, c.args[1]) for c in was]
-        bomw = [c for c in was if "arg3" in canon(w, c.args[1])]
-        dataw = [c for c in was if "encode(" in canon(w, c.args[1])]
-        if rep.check(len(bomw) == 1 and len(dataw) == 1, R, "bom-and-data-writes", "write() must emit the BOM parameter and the encoded data once each: %s" % descr):
-            rep.check(w.can_reach_avoiding(bomw[0].bb, {dataw[0].bb}, set()) and not w.can_reach_avoiding(dataw[0].bb, {bomw[0].bb}, set()), R,
-                      "bom-before-data", "the BOM is no longer written before the encoded data", where=bomw[0].where())
-            rep.check(any(f[0] == "arg3" and f[2] == ("Some",) for f in dominating_variant_facts(prog, w, bomw[0].bb)), R, "bom-only-if-some",
-                      "the BOM write is not conditional on bom = Some")
-            # (a fact `arg3 in {None, Some}` after the join of both arms says nothing)
-            rep.check(not any(f[0] == "arg3" and (f[1] == "is" or len(f[2]) < 2) for f in dominating_variant_facts(prog, w, dataw[0].bb)), R, "data-always",
-                      "the data write depends on the BOM being present")
-        en = w.calls_to(FF + "encode")
+        try:
+            tw = Table(prog, w, inline=1, opaque=("encode",))
+        except TooComplex as ex:
+            tw = None
+            rep.fail(R, "write:table", "write() is not loop-free any more: %s" % ex)
+        if tw is not None:
+            badw, okp = [], 0
+            for (cons, res), calls in zip(tw.rows, tw.calls):
+                if not render(res).startswith("Ok("):
+                    continue
+                okp += 1
+                written = [re.sub(r"\b(place|call|sym):", "", a2[1]).replace(" ", "") for n2, a2 in calls if n2 == "std::io::Write::write_all"]
+                has_bom = any(c[0] == "is" and str(c[1]) == "arg3" and c[2] == "Some" for c in cons)
+                no_bom = any(c[0] == "is" and str(c[1]) == "arg3" and c[2] == "None" for c in cons)
+                data = [x for x in written if "encode(arg2,arg4)" in x]
+                boms = [x for x in written if x.startswith("arg3@Some.0")]
+                if len(data) != 1 or written[-1:] != data:
+                    badw.append("the encoded text is not written exactly once, last: %s" % written)
+                elif has_bom and (len(boms) != 1 or written != boms + data):
+                    badw.append("with a BOM the stream receives %s instead of [BOM, encoded text]" % written)
+                elif not has_bom and (boms or len(written) != 1):
+                    badw.append("without a BOM%s the stream receives %s" % ("" if no_bom else " (not tested)", written))
+            rep.check(not badw and okp >= 2, R, "bom-and-data-writes", "write() must emit the BOM parameter (iff there is one, first) and the encoded data once each: %s" % (badw[:2] or "%d successful paths" % okp),
+                      where="%s:%d" % (w.file, w.line), instance={"successful_paths": okp, "stream": "[bom?] ++ encode(encoding, data)"})
+        en = [c for c in w.calls() if norm(c.t.get("resolved") or c.callee or "") == FF + "encode"]
         rep.check(len(en) == 1 and canon(w, en[0].args[0]) == "arg2" and canon(w, en[0].args[1]) == "arg4", R, "encode(encoding,data)",
                   "write() does not encode `data` with its `encoding` parameter")
     e = prog.body(FF + "encode")
